@@ -100,6 +100,9 @@ def build_file(case, path):
         if case.get('trunc_tracks') is not None:
             # cut the file after this many tracks' worth of data (file order)
             f.truncate(case['trunc_tracks'] * spt * 256)
+        if case.get('trunc_bytes') is not None:
+            # cut inside a sector: the last sector is only partly stored
+            f.truncate(case['trunc_bytes'])
     return info
 
 
@@ -135,6 +138,10 @@ def w_container(case):
         sig = 'C04:%s:%s:%dsurf' % (cont, kind, nsurf)
         note = '%s %s %dx%d' % (cont, kind, nt, spt)
         trunc = case.get('trunc_tracks')
+        cut_at = trunc * spt * 256 if trunc is not None else None
+        if case.get('trunc_bytes') is not None:
+            trunc, cut_at = case['trunc_bytes'], case['trunc_bytes']
+            sig += ':cut-inside-sector'
         for i in info:
             surf = i['surface']
             drive = 2 * surf
@@ -154,11 +161,11 @@ def w_container(case):
             else:
                 # the file is cut: the read must fail (never deliver other data) unless everything needed is present
                 last_needed = ref_offset(cont, nt, spt, surf, (i['first'] + i['count'] - 1) // spt, (i['first'] + i['count'] - 1) % spt)
-                complete = last_needed + 256 <= trunc * spt * 256
+                complete = last_needed + 256 <= cut_at
                 if r.status() == 'exit0':
                     check_stream(res, sig + ':truncated', note, r.out, cont, nt, spt, surf, i['first'])
                     if not complete:
-                        res['viol'].append((sig + ':truncated:read-beyond-eof-succeeded', '%s cut after %d tracks: whole-file read succeeded' % (note, trunc)))
+                        res['viol'].append((sig + ':truncated:read-beyond-eof-succeeded', '%s cut after %s: whole-file read succeeded' % (note, ('%d tracks' % trunc) if cut_at != trunc else ('%d bytes' % cut_at))))
                 elif r.sig:
                     res['viol'].append((sig + ':truncated:signal', r.status()))
                 else:
@@ -175,7 +182,7 @@ def w_container(case):
                     rr = dfsrun.dfs(BIN, ['--file', fname, 'dump-sector', str(drive), str(t), str(s)], d)
                     res['n'] += 1
                     off = ref_offset(cont, nt, spt, surf, t, s)
-                    beyond = trunc is not None and off + 256 > trunc * spt * 256
+                    beyond = trunc is not None and off + 256 > cut_at
                     if rr.status() == 'exit0':
                         try:
                             got, _ = render.parse_dump(rr.out)
@@ -244,6 +251,19 @@ def w_mmb(case):
                             res['viol'].append((sig + ':status:present-slot-unreadable', 'status 0x%02X slot %d %r: %r' % (status[slot], slot, cmd, r.err[:100])))
                         else:
                             bump(res, 'present-ok')
+                            if cmd[0] == 'type':
+                                # a neighbour's status byte must not move this slot: the bytes come from 8192 + slot*204800
+                                for lba in case.get('slot_sectors', []):
+                                    k = lba - i['first']
+                                    want = stamp(ref_offset('mmb', 80, 10, 0, lba // 10, lba % 10, slot))
+                                    got = r.out[k * 256:(k + 1) * 256]
+                                    if got != want:
+                                        src = struct.unpack('>Q', got[8:16])[0] if got[:8] == b'\xEE' * 8 else -1
+                                        nb = status.get((slot - 1) % 511)
+                                        res['viol'].append((sig + ':status:wrong-offset:neighbour-%s' % ('present' if nb in (0, 15) else 'absent' if nb is not None else 'none'),
+                                                            'mmb slot %d (statuses %s) sector %d comes from file offset %d' % (slot, {q: hex(v) for q, v in status.items()}, lba, src)))
+                                    else:
+                                        bump(res, 'sector-ok')
                     else:
                         if r.status() == 'exit0' or r.out:
                             res['viol'].append((sig + ':status:unformatted-slot-readable', 'slot %d with status byte 0x%02X: %r gave %s and %d bytes' % (
@@ -326,6 +346,17 @@ def fam_trunc(tier):
                    'trunc_tracks': k}
 
 
+def fam_partial(tier):
+    """file cut INSIDE a sector (1, 100, 255 bytes of it stored): last sector of the last track, a sector in the middle of the last track, side 1 of interleaved files; that sector must not be served (dump-sector and file reads)"""
+    for cont, nt, spt in (('ssd', 40, 10), ('dsd', 40, 10), ('sdd', 40, 18), ('ddd', 80, 18), ('ssd', 80, 10)):
+        nsurf = 2 if cont[0] == 'd' else 1
+        for surf in range(nsurf):
+            for (t, sct) in ((nt - 1, spt - 1), (nt - 1, spt // 2), (nt - 1, 0), (nt - 2, spt - 1)):
+                for k in (1, 100, 255):
+                    yield {'w': 'container', 'container': cont, 'ntracks': nt, 'spt': spt, 'kind': 'acorn', 'surfaces': nsurf,
+                           'trunc_bytes': ref_offset(cont, nt, spt, surf, t, sct) + k}
+
+
 def fam_mmb(tier):
     """MMB: every slot 0..510 (first/last sector of each; every sector of slots 0,1,255,509,510 (quick) / of every slot (thorough)); all 256 status bytes on slots 0,1,510"""
     full = [0, 1, 255, 509, 510]
@@ -342,7 +373,7 @@ def fam_mmb(tier):
                 yield {'w': 'mmb', 'status': {str(slot): v, str((slot + 1) % 511): 0x0F}, 'mode': 'status', 'slot_sectors': [2, 5]}
 
 
-FAMILIES = [('K-containers-geometries', fam_containers), ('T-truncated-files', fam_trunc), ('M-mmb-slots-status', fam_mmb),
+FAMILIES = [('K-containers-geometries', fam_containers), ('T-truncated-files', fam_trunc), ('P-partly-stored-last-sector', fam_partial), ('M-mmb-slots-status', fam_mmb),
             ('N-two-sided-non-interleaved', fam_twosided)]
 
 
